@@ -362,8 +362,15 @@ Proof.
   2:{ rewrite csl_other by assumption. exists st. unfold SB. auto. }
   unfold kw_among in *. rewrite Hk in *. cbn [andb existsb] in *. split_bools.
   unfold w_BEGIN, w_END, w_IF, w_FOR, w_WHILE, w_CASE, w_END_IF, w_END_FOR, w_END_WHILE in *.
-  enter_kw Hk. unfold SB.
-  kill_ifs; try (eexists; split; [reflexivity|]; cbn; auto); bool_contra.
+  enter_kw Hk. unfold SB. cbn [existsb].
+  repeat match goal with
+         | H : text_eqb (upper (snd tk)) ?w = false |- _ => rewrite H; clear H
+         end.
+  cbn [orb andb].
+  assert (Hz : Z.eqb (begin_depth st) 0 = false) by (apply Z.eqb_neq; lia).
+  rewrite Hz, ?andb_false_r.
+  destruct (ttype_eqb (fst tk) [Keyword; DDL] && text_prefixb [67; 82; 69; 65; 84; 69]%N (upper (snd tk)));
+    (eexists; split; [reflexivity|]; cbn; auto).
 Qed.
 
 (* a keyword token spelling w: evaluate the chain with `upper v = w` *)
@@ -512,6 +519,17 @@ Record BodySt (st : pstate) (b L : Z) (ic : bool) : Prop :=
 
 (* processing a block from inside an open BEGIN (b >= 1, level >= 1) never terminates a statement
    and returns to the same depth, level and flags *)
+Lemma mk_body s' c' a' l' b L ic :
+  SB s' b ic -> l' = L -> c' = false ->
+  BodySt {| ss := s'; consume_ws := c'; acc := a'; level := l' |} b L ic.
+Proof. intros H1 H2 H3. constructor; assumption. Qed.
+
+(* apply the induction hypothesis at the state the goal is currently in *)
+Ltac ih_here IH rest b L ic :=
+  match goal with
+  | |- context [PG ?s (_ ++ rest)] => destruct (IH s rest b L ic) as (?st' & ?E' & ?HB' & ?Ha')
+  end.
+
 Lemma blk_run : forall f q, Blk f q ->
   forall st rest b L ic, (f = true -> ic = false) -> 1 <= b -> 1 <= L -> BodySt st b L ic ->
   exists st', PG st (q ++ rest) = PG st' rest /\ BodySt st' b L ic /\ acc st' = rev q ++ acc st.
@@ -527,8 +545,7 @@ Proof.
     { unfold neutral_tok in Hn. split_bools. auto. }
     cbn [app]. rewrite (PG_noconsume _ _ _ Hcw).
     rewrite (step_quiet _ _ _ _ Hcw E (proj1 Hg) (or_introl (proj2 Hg))).
-    edestruct IH as (st' & E' & HB' & Ha'); [exact Hf|exact Hb|exact HL| |].
-    { constructor; cbn; [exact HS'|lia|reflexivity]. }
+    ih_here IH rest b L ic; [exact Hf|exact Hb|exact HL|apply mk_body; [exact HS'|lia|reflexivity]|].
     exists st'. split; [exact E'|]. split; [exact HB'|].
     rewrite Ha'. cbn [acc rev]. rewrite <- app_assoc. reflexivity.
   - (* semicolon at level >= 1 *)
@@ -537,67 +554,71 @@ Proof.
       by (apply csl_other; auto using semi_not_kw).
     cbn [app]. rewrite (PG_noconsume _ _ _ Hcw).
     rewrite (step_quiet _ _ _ _ Hcw E (semi_not_go _ Hs)) by (right; lia).
-    edestruct IH as (st' & E' & HB' & Ha'); [exact Hf|exact Hb|exact HL| |].
-    { constructor; cbn; [exact HS|lia|reflexivity]. }
+    ih_here IH rest b L ic; [exact Hf|exact Hb|exact HL|apply mk_body; [exact HS|lia|reflexivity]|].
     exists st'. split; [exact E'|]. split; [exact HB'|].
     rewrite Ha'. cbn [acc rev]. rewrite <- app_assoc. reflexivity.
   - (* parentheses *)
     destruct (lparen_not_go _ Ho) as [Hg1 Hs1]. destruct (rparen_not_go _ Hc) as [Hg2 Hs2].
     cbn [app]. rewrite (PG_noconsume _ _ _ Hcw).
     rewrite (step_quiet _ _ _ _ Hcw (csl_lparen _ _ Ho) Hg1 (or_introl Hs1)).
-    rewrite <- app_assoc.
-    edestruct IHq as (st1 & E1 & [HS1 Hl1 Hc1] & Ha1); [exact Hf|exact Hb| |constructor; cbn; eauto|]; [lia|].
-    rewrite E1. cbn [app]. rewrite (PG_noconsume _ _ _ Hc1).
+    rewrite <- app_assoc. cbn [app].
+    ih_here IHq (c :: r ++ rest) b (L + 1) ic;
+      [exact Hf|exact Hb|lia|apply mk_body; [exact HS|lia|reflexivity]|].
+    destruct HB' as [HS1 Hl1 Hc1].
+    rewrite E'. cbn [app]. rewrite (PG_noconsume _ _ _ Hc1).
     assert (Hnl : is_lparen c = false).
     { destruct (is_lparen c) eqn:X; [|reflexivity]. apply lparen_not_rparen in X. congruence. }
     rewrite (step_quiet _ _ _ _ Hc1 (csl_rparen _ _ Hnl Hc) Hg2 (or_introl Hs2)).
-    edestruct IHr as (st2 & E2 & HB2 & Ha2); [exact Hf|exact Hb|exact HL| |].
-    { constructor; cbn; [exact HS1|lia|reflexivity]. }
-    exists st2. split; [exact E2|]. split; [exact HB2|].
-    rewrite Ha2. cbn [acc]. rewrite Ha1. cbn [acc rev].
+    ih_here IHr rest b L ic; [exact Hf|exact Hb|exact HL|apply mk_body; [exact HS1|lia|reflexivity]|].
+    exists st'0. split; [exact E'0|]. split; [exact HB'|].
+    rewrite Ha'0. cbn [acc]. rewrite Ha'. cbn [acc rev].
     rewrite rev_app_distr. cbn [rev]. rewrite <- !app_assoc. reflexivity.
   - (* IF / WHILE / FOR ... END IF / END WHILE / END FOR *)
     destruct (csl_open _ _ _ _ Ho Hb HS) as (s1 & Eo & HSo).
     cbn [app]. rewrite (PG_noconsume _ _ _ Hcw).
     rewrite (step_quiet _ _ _ _ Hcw Eo (kwtok_go _ _ Ho) (or_introl (kwtok_not_semi _ _ Ho))).
-    rewrite <- app_assoc.
-    edestruct IHq as (st1 & E1 & [HS1 Hl1 Hc1] & Ha1); [exact Hf|exact Hb| |constructor; cbn; eauto|]; [lia|].
-    rewrite E1. cbn [app]. rewrite (PG_noconsume _ _ _ Hc1).
+    rewrite <- app_assoc. cbn [app].
+    ih_here IHq (c :: r ++ rest) b (L + 1) ic;
+      [exact Hf|exact Hb|lia|apply mk_body; [exact HSo|lia|reflexivity]|].
+    destruct HB' as [HS1 Hl1 Hc1].
+    rewrite E'. cbn [app]. rewrite (PG_noconsume _ _ _ Hc1).
     destruct (csl_close _ _ _ _ Hc HS1) as (s2 & Ec & HSc).
     rewrite (step_quiet _ _ _ _ Hc1 Ec (kwtok_go _ _ Hc) (or_introl (kwtok_not_semi _ _ Hc))).
-    edestruct IHr as (st2 & E2 & HB2 & Ha2); [exact Hf|exact Hb|exact HL| |].
-    { constructor; cbn; [exact HSc|lia|reflexivity]. }
-    exists st2. split; [exact E2|]. split; [exact HB2|].
-    rewrite Ha2. cbn [acc]. rewrite Ha1. cbn [acc rev].
+    ih_here IHr rest b L ic; [exact Hf|exact Hb|exact HL|apply mk_body; [exact HSc|lia|reflexivity]|].
+    exists st'0. split; [exact E'0|]. split; [exact HB'|].
+    rewrite Ha'0. cbn [acc]. rewrite Ha'. cbn [acc rev].
     rewrite rev_app_distr. cbn [rev]. rewrite <- !app_assoc. reflexivity.
   - (* BEGIN ... END *)
     assert (ic = false) by auto. subst ic.
     destruct (csl_begin _ _ _ _ Ho HS) as (s1 & Eo & HSo).
     cbn [app]. rewrite (PG_noconsume _ _ _ Hcw).
     rewrite (step_quiet _ _ _ _ Hcw Eo (kwtok_go _ _ Ho) (or_introl (kwtok_not_semi _ _ Ho))).
-    rewrite <- app_assoc.
-    edestruct IHq as (st1 & E1 & [HS1 Hl1 Hc1] & Ha1); [reflexivity| | |constructor; cbn; eauto|]; [lia|lia|].
-    rewrite E1. cbn [app]. rewrite (PG_noconsume _ _ _ Hc1).
-    destruct (csl_end _ _ _ Hc ltac:(lia) HS1) as (s2 & Ec & HSc).
+    rewrite <- app_assoc. cbn [app].
+    ih_here IHq (c :: r ++ rest) (b + 1) (L + 1) false;
+      [reflexivity|lia|lia|apply mk_body; [exact HSo|lia|reflexivity]|].
+    destruct HB' as [HS1 Hl1 Hc1].
+    rewrite E'. cbn [app]. rewrite (PG_noconsume _ _ _ Hc1).
+    destruct (csl_end _ _ (b + 1) Hc ltac:(lia) HS1) as (s2 & Ec & HSc).
     rewrite (step_quiet _ _ _ _ Hc1 Ec (kwtok_go _ _ Hc) (or_introl (kwtok_not_semi _ _ Hc))).
-    edestruct IHr as (st2 & E2 & HB2 & Ha2); [reflexivity|exact Hb|exact HL| |].
-    { constructor; cbn; [|lia|reflexivity]. replace b with (b + 1 - 1) by lia. exact HSc. }
-    exists st2. split; [exact E2|]. split; [exact HB2|].
-    rewrite Ha2. cbn [acc]. rewrite Ha1. cbn [acc rev].
+    replace (b + 1 - 1) with b in HSc by lia.
+    ih_here IHr rest b L false; [reflexivity|exact Hb|exact HL|apply mk_body; [exact HSc|lia|reflexivity]|].
+    exists st'0. split; [exact E'0|]. split; [exact HB'|].
+    rewrite Ha'0. cbn [acc]. rewrite Ha'. cbn [acc rev].
     rewrite rev_app_distr. cbn [rev]. rewrite <- !app_assoc. reflexivity.
   - (* CASE ... END *)
     assert (ic = false) by auto. subst ic.
     destruct (csl_case _ _ _ _ Ho Hb HS) as (s1 & Eo & HSo).
     cbn [app]. rewrite (PG_noconsume _ _ _ Hcw).
     rewrite (step_quiet _ _ _ _ Hcw Eo (kwtok_go _ _ Ho) (or_introl (kwtok_not_semi _ _ Ho))).
-    rewrite <- app_assoc.
-    edestruct IHq as (st1 & E1 & [HS1 Hl1 Hc1] & Ha1); [discriminate|exact Hb| |constructor; cbn; eauto|]; [lia|].
-    rewrite E1. cbn [app]. rewrite (PG_noconsume _ _ _ Hc1).
+    rewrite <- app_assoc. cbn [app].
+    ih_here IHq (c :: r ++ rest) b (L + 1) true;
+      [discriminate|exact Hb|lia|apply mk_body; [exact HSo|lia|reflexivity]|].
+    destruct HB' as [HS1 Hl1 Hc1].
+    rewrite E'. cbn [app]. rewrite (PG_noconsume _ _ _ Hc1).
     destruct (csl_end_case _ _ _ Hc HS1) as (s2 & Ec & HSc).
     rewrite (step_quiet _ _ _ _ Hc1 Ec (kwtok_go _ _ Hc) (or_introl (kwtok_not_semi _ _ Hc))).
-    edestruct IHr as (st2 & E2 & HB2 & Ha2); [reflexivity|exact Hb|exact HL| |].
-    { constructor; cbn; [exact HSc|lia|reflexivity]. }
-    exists st2. split; [exact E2|]. split; [exact HB2|].
-    rewrite Ha2. cbn [acc]. rewrite Ha1. cbn [acc rev].
+    ih_here IHr rest b L false; [reflexivity|exact Hb|exact HL|apply mk_body; [exact HSc|lia|reflexivity]|].
+    exists st'0. split; [exact E'0|]. split; [exact HB'|].
+    rewrite Ha'0. cbn [acc]. rewrite Ha'. cbn [acc rev].
     rewrite rev_app_distr. cbn [rev]. rewrite <- !app_assoc. reflexivity.
 Qed.
